@@ -55,6 +55,19 @@ CHECKS = {
              'Tie and monitors (look-ahead at every pull, concurrent calls) as for C01.',
         note=E1 + 'the pool\'s own concurrency limit is an assumption about the stdlib executor (start guard of the model).',
         ref='§5 C08', engine='E1-detsched+lean'),
+    'C09': dict(
+        technique='Lean 4 proof (inductive invariants, counting argument, progress + decreasing measure over an LTS model of the batching worker) + schedule-controlled full-trace replay of the real Worker code through the model',
+        text='Theorems C09_wellformed / C09_single / C09_partition / C09_deadline / C09_lone_served (+ output pairing) hold for '
+             'every action list of the batching-worker model (all arrival patterns incl. exception values and inputs preprocess '
+             'rejects, all interleavings of collectors, consumers, competing workers and pool threads, all k, batch_size, '
+             'batch_wait_time, with/without in-worker pool). Tie on every run: the real Worker.start/_start_single/_start_batch/'
+             '_build_input_batches/_get_input_batch/stream and SingleLane run under the deterministic scheduler and virtual '
+             'clock on generated arrival patterns; every recorded event is one model action replayed through Batch.step by '
+             'the compiled Lean driver with payload comparison and a rest-state check; monitors evaluate well-formedness, '
+             'partition, deadline, lone-request service and uid/result pairing on each run.',
+        note=E1 + 'timing is about the integer model clock under maximal progress (virtual clock in the tie); the in-worker '
+             "pool's concurrency limit is not modelled; process workers through the theorem (same Worker code) plus a few sampled real-process runs.",
+        ref='§5 C09', engine='E1-detsched+lean'),
     'C15': dict(
         technique='Lean 4 proof (structural induction over a tree model of RemoteException wrap / pickle / rebuild, nested EnsembleError results included) + exact differential comparison of the model\'s executable definitions with real pickle hops',
         text='Theorems C15_roundtrip (any hop list, re-raised or forwarded at each hop: class and args unchanged, '
